@@ -241,12 +241,13 @@ pub fn run(ctx: &Ctx) -> Report {
         std::fs::create_dir_all(alt.parent().unwrap()).unwrap();
         let _ = std::os::unix::fs::symlink(&ctx.imdl, &alt);
         bin = alt.to_string_lossy().into_owned();
-        // what it prints under that name is the script all the same
-        let out = Cmd::new(&bin, &["completions", "--shell", "bash"]).cwd(&cwd).run();
-        if out.stdout != printed["bash"] {
-          report.fail("property", "completions-dispatch", json!({"scenario": name}), "started under another name, `--shell bash` prints a different script".into());
-        }
       }
+      // (what `--shell S` prints is asked of the same binary under the same name)
+      let printed_here: std::collections::BTreeMap<&str, Vec<u8>> = if label == "binary-under-another-name" {
+        SHELLS.iter().map(|(sh, _)| (*sh, Cmd::new(&bin, &["completions", "--shell", sh]).cwd(&cwd).run().stdout)).collect()
+      } else {
+        printed.iter().map(|(k, v)| (*k, v.clone())).collect()
+      };
       let dir_arg = dir_arg.replace("<ABS>", &cwd.to_string_lossy());
       let mut args = vec!["completions", "--dir", dir_arg.as_str()];
       if let Some(sh) = shell {
@@ -279,7 +280,7 @@ pub fn run(ctx: &Ctx) -> Report {
         report.fail("property", "completions-dispatch", case, format!("failed: {}", out.stderr_s()));
       } else if changed != want {
         report.fail("property", "completions-dispatch", case, format!("changed paths {changed:?}, expected exactly {want:?}"));
-      } else if let Some(bad) = shells.iter().find(|s| std::fs::read(cwd.join(format!("{prefix}{}", SHELLS.iter().find(|(n, _)| n == *s).unwrap().1))).ok().as_ref() != Some(&printed[*s])) {
+      } else if let Some(bad) = shells.iter().find(|s| std::fs::read(cwd.join(format!("{prefix}{}", SHELLS.iter().find(|(n, _)| n == *s).unwrap().1))).ok().as_ref() != Some(&printed_here[*s])) {
         report.fail("property", "completions-dispatch", case, format!("the file written for {bad} is not what `--shell {bad}` prints"));
       }
     }
